@@ -17,8 +17,25 @@ var (
 	bodyB = []byte(`{"errorMessage":"second report, refused; it is longer than the first one so that it would overwrite all of its bytes if they shared a buffer","errorType":"Function.Second","stackTrace":["x","y","z","w"]}`)
 )
 
-func routeScenario(kind string) hx.Scenario {
+// sizedBody is an error document of exactly n bytes.
+func sizedBody(n int) []byte {
+	head, tail := `{"errorType":"Function.First","errorMessage":"`, `"}`
+	b := []byte(head)
+	for len(b) < n-len(tail) {
+		b = append(b, "0123456789abcdef"[len(b)%16])
+	}
+	return append(b, tail...)
+}
+
+// routeScenario: size 0 = the short document above, otherwise a document of that many bytes (around and above the
+// 64 KiB that bound the error cause - the body itself has no such bound).
+func routeScenario(kind string, size int) hx.Scenario {
 	name := "route/" + kind + "-body-reaches-the-caller-untouched"
+	bodyA := bodyA
+	if size > 0 {
+		name += fmt.Sprintf("/bytes=%d", size)
+		bodyA = sizedBody(size)
+	}
 	return hx.Scenario{Name: name, Run: func(c *hx.Ctx) *hx.ScenarioResult {
 		cfg := &stack.Config{TimeoutSec: 3}
 		cfg.Runtime = func(rt *stack.Actor) {
@@ -58,7 +75,7 @@ func routeScenario(kind string) hx.Scenario {
 			inv := w.Invokes[0]
 			out := fmt.Sprintf("%d:%d bytes", inv.Status, len(inv.Body))
 			if string(inv.Body) != string(bodyA) {
-				return out, out, &sched.Failure{Clause: "d1-error-body-untouched", Sig: "error-body-altered:" + kind, Msg: fmt.Sprintf("the runtime's accepted error report was %d bytes %q; the caller received status %d and %d bytes %q", len(bodyA), bodyA, inv.Status, len(inv.Body), inv.Body)}
+				return out, out, &sched.Failure{Clause: "d1-error-body-untouched", Sig: "error-body-altered:" + kind, Msg: fmt.Sprintf("the runtime's accepted error report was %d bytes %q; the caller received status %d and %d bytes %q", len(bodyA), trunc(bodyA), inv.Status, len(inv.Body), trunc(inv.Body))}
 			}
 			return out, out, nil
 		}
@@ -67,5 +84,17 @@ func routeScenario(kind string) hx.Scenario {
 }
 
 func routeScenarios(tier string) []hx.Scenario {
-	return []hx.Scenario{routeScenario("init-error-then-second-report"), routeScenario("invocation-error-then-second-report")}
+	out := []hx.Scenario{routeScenario("init-error-then-second-report", 0), routeScenario("invocation-error-then-second-report", 0)}
+	for _, n := range []int{65535, 65536, 65537, 300 << 10} {
+		out = append(out, routeScenario("invocation-error-then-second-report", n))
+	}
+	out = append(out, routeScenario("init-error-then-second-report", 65537))
+	return out
+}
+
+func trunc(b []byte) string {
+	if len(b) > 120 {
+		return string(b[:60]) + "..." + string(b[len(b)-40:])
+	}
+	return string(b)
 }
